@@ -320,6 +320,27 @@ func parse(fn unmarshal.ParsingFunction, body []byte) (fp uint64, doc string, er
 	return
 }
 
+// rawJSONStr: a JSON string literal that keeps every byte >= 0x20 other than the quote and the backslash as it is
+// (also bytes that are not UTF-8)
+func rawJSONStr(s string) string {
+	var b strings.Builder
+	b.WriteByte('"')
+	for i := 0; i < len(s); i++ {
+		ch := s[i]
+		switch {
+		case ch == '"' || ch == '\\':
+			b.WriteByte('\\')
+			b.WriteByte(ch)
+		case ch < 0x20:
+			fmt.Fprintf(&b, "\\u%04x", ch)
+		default:
+			b.WriteByte(ch)
+		}
+	}
+	b.WriteByte('"')
+	return b.String()
+}
+
 func jsonStr(s string) string {
 	b, _ := json.Marshal(s)
 	return string(b)
@@ -389,7 +410,14 @@ func observe(r *rand.Rand, c *LCase, raw [][]string) {
 					c.Skipped["promrw"] = "not encodable: " + err.Error()
 				}
 			} else {
-				c.Skipped["json_stream"] = "ill-formed UTF-8 cannot be carried"
+				// the JSON decoder of the Loki push (jx) does not validate UTF-8: raw ill-formed bytes arrive in the labels
+				sent := permuted(r, raw)
+				var m []string
+				for _, kv := range sent {
+					m = append(m, rawJSONStr(kv[0])+":"+rawJSONStr(kv[1]))
+				}
+				body := `{"streams":[{"stream":{` + strings.Join(m, ",") + `},"values":[["1704888000000000000","x"]]}]}`
+				viaParser("json_stream_raw_bytes", unmarshal.DecodePushRequestStringV2, sent, []byte(body))
 				c.Skipped["promrw"] = "ill-formed UTF-8 cannot be carried"
 			}
 			if allIdent(raw) {
